@@ -199,7 +199,7 @@ var c09Pools = [][]string{
 }
 var c09ACE = []string{"xn--nxasmq6b", "XN--NXASMQ6B", "xn--ls8h", "xn--mnchen-3ya", "xn--4ca", "xn--a", "xn--", "xn--0", "xn--fa-hia", "xn--zca", "Xn--Mnchen-3yA", "xn--1ch", "xn--ab-miv", "xn--a-", "xn--ASCII-", "xn--u-ccb"}
 var c09Dots = []string{".", ".", ".", ".", "\u3002", "\uff0e", "\uff61"}
-var c09Whole = []string{"localhost", "LOCALHOST", "LocalHost", "example.com", "EXAMPLE.COM", "faß.de", "日本語.jp", "a.b.c.d", "1.2.3.4", "0x7F.1", "a..b", "a.", ".a", "xn--nxasmq6b.com", "Ｇｏ.ｃｏｍ", "l\u00adocalhost", "ｌｏｃａｌｈｏｓｔ"}
+var c09Whole = []string{"localhost.", "LOCALHOST.", "localhost..", ".localhost", "localhost.localdomain", "Localhost.", "localhost", "LOCALHOST", "LocalHost", "example.com", "EXAMPLE.COM", "faß.de", "日本語.jp", "a.b.c.d", "1.2.3.4", "0x7F.1", "a..b", "a.", ".a", "xn--nxasmq6b.com", "Ｇｏ.ｃｏｍ", "l\u00adocalhost", "ｌｏｃａｌｈｏｓｔ"}
 
 func Gen09(t *rapid.T) Case09 {
 	var c Case09
